@@ -152,25 +152,19 @@ def cutspace : List Char → List Char
   | ' ' :: r => cutspace r
   | cs => cs
 
-/-- `skip(value, prefix)`: a space in the layout matches any run of spaces (or the end of the value) -/
-def skipLit : List Char → List Char → Option (List Char)
-  | v, [] => some v
-  | v, ' ' :: p =>
+/-- `skip(value, prefix)`: a space in the layout matches any run of spaces (or the end of the value).
+The fuel is the length of the prefix (every step shortens it), which keeps the recursion structural. -/
+def skipLitF : Nat → List Char → List Char → Option (List Char)
+  | _, v, [] => some v
+  | 0, _, _ :: _ => none
+  | n + 1, v, ' ' :: p =>
     match v with
-    | [] => skipLit [] (cutspace p)
-    | c :: _ => if c != ' ' then none else skipLit (cutspace v) (cutspace p)
-  | [], _ :: _ => none
-  | c :: v, x :: p => if c == x then skipLit v p else none
-termination_by _ p => p.length
-decreasing_by
-  all_goals simp_wf
-  all_goals first
-    | omega
-    | (have h : ∀ l : List Char, (cutspace l).length ≤ l.length := by
-         intro l; induction l with
-         | nil => simp [cutspace]
-         | cons a t ih => unfold cutspace; split <;> simp_all <;> omega
-       have := h p; omega)
+    | [] => skipLitF n [] (cutspace p)
+    | c :: _ => if c != ' ' then none else skipLitF n (cutspace v) (cutspace p)
+  | _ + 1, [], _ :: _ => none
+  | n + 1, c :: v, x :: p => if c == x then skipLitF n v p else none
+
+def skipLit (v p : List Char) : Option (List Char) := skipLitF p.length v p
 
 /-- `match` of `time/format.go`: equal ignoring ASCII case -/
 def matchFold : List Char → List Char → Bool
